@@ -726,6 +726,15 @@ def annotate(repo, contracts, out, vacuity=False, demote=()):
                     job.edits.append((p, p, '\n        proof { assert(false); }\n', [dict(kind='vacuity', fn=f.qual)], 10 ** 8))
         notes['vacuity_probes'] = sorted(q for (_, q) in seen)
 
+    # N8: an elided lifetime in a `const`/`static` item type is 'static by definition; Verus's macro wants it spelled out
+    for rel, job in jobs.items():
+        if job.wrap is None:
+            continue
+        for m_ in re.finditer(r'\b(?:const|static)\s+\w+\s*:\s*&(?!\s*\')', job.src):
+            if job.wrap[0] <= m_.start() < job.wrap[1]:
+                job.add(m_.end(), m_.end(), "'static ", [dict(kind='normalisation', old='&', new="&'static ")])
+                notes['normalisations'].append(dict(file=rel, old='const X: &T', new="const X: &'static T", count=1, scope='file'))
+
     # text layer: rewrite format! calls in verified functions of files that asked for it
     fmt_helper_text = {}
     for rel in sorted(fmt_files):
